@@ -121,9 +121,12 @@ enum Member {
     Dir(String),
 }
 
-fn members(t: &Tree, o: ArchiveOpts, rng: &mut Rng) -> Vec<Member> {
+/// The members of an archive of `t`, and the tree the archive really describes: a directory that
+/// gets no member of its own and has nothing below it is simply not in the archive.
+fn members(t: &Tree, o: ArchiveOpts, rng: &mut Rng) -> (Vec<Member>, Tree) {
     let pre = if o.dot_prefix { "./" } else { "" };
     let mut v = vec![];
+    let mut named: Vec<Vec<String>> = t.files.iter().map(|(id, _, _)| id[..id.len() - 1].to_vec()).collect();
     for d in &t.dirs {
         if d.is_empty() {
             continue;
@@ -135,6 +138,7 @@ fn members(t: &Tree, o: ArchiveOpts, rng: &mut Rng) -> Vec<Member> {
         };
         if keep {
             v.push(Member::Dir(format!("{pre}{}/", Tree::rel_path(d, None))));
+            named.push(d.clone());
         }
     }
     for (id, ext, b) in &t.files {
@@ -150,33 +154,37 @@ fn members(t: &Tree, o: ArchiveOpts, rng: &mut Rng) -> Vec<Member> {
         }
         _ => {}
     }
-    v
+    let eff = Tree {
+        files: t.files.clone(),
+        dirs: t.dirs.iter().filter(|d| d.is_empty() || named.iter().any(|n| n.starts_with(d))).cloned().collect(),
+    };
+    (v, eff)
 }
 
-fn zip_bytes(t: &Tree, o: ArchiveOpts, rng: &mut Rng) -> Vec<u8> {
+fn zip_bytes(ms: &[Member], o: ArchiveOpts) -> Vec<u8> {
     let mut w = zip::ZipWriter::new(std::io::Cursor::new(Vec::new()));
     let opts = zip::write::FileOptions::default().compression_method(if o.deflate {
         zip::CompressionMethod::Deflated
     } else {
         zip::CompressionMethod::Stored
     });
-    for m in members(t, o, rng) {
+    for m in ms {
         match m {
             Member::File(name, data) => {
-                w.start_file(name, opts).unwrap();
-                w.write_all(&data).unwrap();
+                w.start_file(name.clone(), opts).unwrap();
+                w.write_all(data).unwrap();
             }
             Member::Dir(name) => {
-                w.add_directory(name, opts).unwrap();
+                w.add_directory(name.clone(), opts).unwrap();
             }
         }
     }
     w.finish().unwrap().into_inner()
 }
 
-fn tar_bytes(t: &Tree, o: ArchiveOpts, rng: &mut Rng) -> Vec<u8> {
+fn tar_bytes(ms: &[Member]) -> Vec<u8> {
     let mut b = tar::Builder::new(Vec::new());
-    for m in members(t, o, rng) {
+    for m in ms {
         match m {
             Member::File(name, data) => {
                 let mut h = tar::Header::new_gnu();
@@ -421,19 +429,22 @@ pub fn run(a: &Args) {
                 dir_members: ((v + i) % 3) as u8,
                 dot_prefix: rng.chance(1, 4),
             };
-            let zb = zip_bytes(&t, o, &mut rng);
-            push(&mut cases, &t, format!("zip {o:?}"), probe(Zip::from_bytes(zb.clone()).unwrap(), &t, true));
-            let tb = tar_bytes(&t, o, &mut rng);
-            push(&mut cases, &t, format!("tar {o:?}"), probe(Tar::from_bytes(tb.clone()).unwrap(), &t, true));
+            // `t` asks the questions (also about directories the archive leaves out), `ta` is
+            // what the archive describes
+            let (ms, ta) = members(&t, o, &mut rng);
+            let zb = zip_bytes(&ms, o);
+            push(&mut cases, &ta, format!("zip {o:?}"), probe(Zip::from_bytes(zb.clone()).unwrap(), &t, true));
+            let tb = tar_bytes(&ms);
+            push(&mut cases, &ta, format!("tar {o:?}"), probe(Tar::from_bytes(tb.clone()).unwrap(), &t, true));
             if v == 0 {
                 let zp = base.join(format!("t{i}.zip"));
                 std::fs::write(&zp, &zb).unwrap();
-                push(&mut cases, &t, format!("zipfile {o:?}"), probe(Zip::open(&zp).unwrap(), &t, true));
-                iter_monitor(Zip::open(&zp).unwrap(), &t, "zipfile", &mut iter_bad);
+                push(&mut cases, &ta, format!("zipfile {o:?}"), probe(Zip::open(&zp).unwrap(), &t, true));
+                iter_monitor(Zip::open(&zp).unwrap(), &ta, "zipfile", &mut iter_bad);
                 let tp = base.join(format!("t{i}.tar"));
                 std::fs::write(&tp, &tb).unwrap();
-                push(&mut cases, &t, format!("tarfile {o:?}"), probe(Tar::open(&tp).unwrap(), &t, true));
-                iter_monitor(Tar::open(&tp).unwrap(), &t, "tarfile", &mut iter_bad);
+                push(&mut cases, &ta, format!("tarfile {o:?}"), probe(Tar::open(&tp).unwrap(), &t, true));
+                iter_monitor(Tar::open(&tp).unwrap(), &ta, "tarfile", &mut iter_bad);
             }
         }
     }
